@@ -243,10 +243,15 @@ def validate(func, *args, **kwds):
         var_kwds = set(kwds) - set(named)
         raise TypeError("%s() takes at most %d arguments (%d given)" % (func.__name__, len(named)+len(p_args), len(p_args)+len(args)+len(kwds)))
 
+    # positional-only parameters can't be given by keyword (any such keyword is a varkwd)
+    posonly = getattr(getattr(func, '__code__', None), 'co_posonlyargcount', 0)
+    posonly = set(inspect.getfullargspec(func).args[:posonly])
+
     # check any varkwds; FAIL if func doesn't take varkwds
-    var_kwds = set(kwds) - set(named) - kwonly
+    var_kwds = set(kwds) - (set(named) - posonly) - kwonly
     if var_kwds and not haskwds:
         raise TypeError("%s() got an unexpected keyword argument '%s'" % (func.__name__,var_kwds.pop()))
+    kwds = dict((k,v) for (k,v) in kwds.items() if k not in posonly)
 
     # get user_args as a dict
     args_kwds = dict(zip(named,args))
